@@ -8,11 +8,11 @@
    re-lex as itself (names are identifiers that are not keyword-prefixed, a function name is followed by "(", a keyword
    stands between non-word characters, other characters start no term).  Theorems hold for EVERY such list, of any length.
    That the equations the parser produces are of this form is checked per case by the correspondence K_domain
-   (harness/props/C20.py); for the renderings of Eval statements it is a decidable premise (instance: C20_hypotheses_satisfiable).
+   (harness/props/C20.py), and proved for the renderings of all Eval statements (C20_rendered_statements_wf).
    Evaluation semantics: Eval.eval_expr (generic in the number type and in every arithmetic operation). *)
 From Coq Require Import String Ascii List Bool Arith ZArith.
 Import ListNotations.
-Require Import PyBase PyStr Lex Symbols GLex GNorm Graph GraphFacts GraphTheorems GraphEvalFacts GraphExamples.
+Require Import PyBase PyStr Lex Symbols ParseEq ParseModel GLex GNorm Graph GraphFacts GraphTheorems GraphEvalFacts GraphEvalWf GraphExamples.
 Require Import Solver Eval EvalFacts.
 Open Scope string_scope.
 
@@ -65,6 +65,37 @@ Proof. exact nodes_exact. Qed.
 Print Assumptions C20_nodes_exact.
 
 (* ---- against the evaluation semantics: programs of Eval statements, rendered as normalised equations ---- *)
+(* the rendering of every statement is a well-formed normalised equation *)
+Theorem C20_rendered_statements_wf : forall (num : Type) (vname : nat -> string) (show : num -> string) (f1name f2name : nat -> string),
+  (forall x, name_ok (vname x) = true) -> (forall z, numeral_ok (show z) = true) ->
+  (forall f, fname_ok (f1name f) = true) -> (forall f, fname_ok (f2name f) = true) ->
+  forall prog : list (stmt num), forallb neq_wf (map (rstmt num vname show f1name f2name) prog) = true.
+Proof. exact rstmts_wf. Qed.
+Print Assumptions C20_rendered_statements_wf.
+
+(* term by term, without the decidable premise: names are identifiers that no keyword prefixes, distinct series have
+   distinct names, numerals contain no letter / backtick / brace / "<".  Edge (x,k) -> (y,ky) iff a statement that assigns
+   (y,ky) reads (x,k): nothing more (no spurious edge), nothing less (no dependency missed) *)
+Theorem C20_program_edges_terms : forall (num : Type) (vname : nat -> string) (show : num -> string) (f1name f2name : nat -> string),
+  (forall x, name_ok (vname x) = true) -> (forall x x', vname x = vname x' -> x = x') ->
+  (forall z, numeral_ok (show z) = true) ->
+  (forall f, fname_ok (f1name f) = true) -> (forall f, fname_ok (f2name f) = true) ->
+  forall (prog : list (stmt num)) (x : nat) (k : Z) (y : nat) (ky : Z),
+    is_edge (prog_graph num vname show f1name f2name prog) (tt vname x k) (tt vname y ky) = true
+    <-> (exists e, In (SAssign y ky e) prog /\ In (x, k) (expr_reads num e)).
+Proof. exact program_edges_terms. Qed.
+Print Assumptions C20_program_edges_terms.
+
+(* reads of a conditional-free expression that evaluates to a value are all in the access log *)
+Theorem C20_reads_logged : forall (num : Type) (add sub mul div pow : num -> num -> num) (neg absf : num -> num) (ltb leb eqb : num -> num -> bool)
+    (zero : num) (fun1 : nat -> num -> num) (fun2 : nat -> num -> num -> num) (flagged : list num -> num -> bool)
+    (catch : bool) (t : Z) (v : vals num) (e : expr num) (r : num) (lg : list access),
+  cond_free num e = true ->
+  eval_expr num add sub mul div pow neg absf ltb leb eqb zero fun1 fun2 flagged catch t v e = (EVal r, lg) ->
+  forall (x : nat) (k : Z), In (x, k) (expr_reads num e) -> exists q : nat, In (Acc false x (t + k)%Z (Some q)) lg.
+Proof. exact reads_logged. Qed.
+Print Assumptions C20_reads_logged.
+
 (* variable-like edge x' -> n'  iff  some statement assigns the term n' and reads the term x' *)
 Theorem C20_program_edges : forall (num : Type) (vname : nat -> string) (show : num -> string) (f1name f2name : nat -> string)
     (prog : list (stmt num)) (x' n' : string),
@@ -128,8 +159,10 @@ Print Assumptions C20_edge_is_read.
 (* ---- hypotheses are satisfiable; what does not hold of the code as it is ---- *)
 Theorem C20_hypotheses_satisfiable :
   forallb neq_wf [ex_q1; ex_q2] = true /\
-  forallb neq_wf (map (rstmt Z ex_vname string_of_Z ex_f1 ex_f2) ex_prog) = true.
-Proof. exact (conj ex_neqs_wf ex_prog_wf). Qed.
+  forallb neq_wf (map (rstmt Z ex_vname string_of_Z ex_f1 ex_f2) ex_prog) = true /\
+  forallb name_ok ["Y"; "X"; "is_open"; "not_X"; "Pin"; "alpha_1"] = true /\ name_ok "if" = false /\ name_ok "is" = false /\
+  forallb fname_ok ["exp"; "np.sqrt"; "max"] = true /\ forallb numeral_ok ["2"; "0.5"; "-10"; "1."] = true /\ numeral_ok "2e5" = false.
+Proof. exact (conj ex_neqs_wf (conj ex_prog_wf ex_name_conditions)). Qed.
 Print Assumptions C20_hypotheses_satisfiable.
 
 (* finding #20: the script says X one period back, the graph (built from the normalised equation "Y[t] = X[t] [-1]") says X now *)
